@@ -39,13 +39,14 @@ type SMT struct {
 	initHeap  map[string]string
 	heapSort  map[string]string
 	recFuns   []string
+	refNoted  map[string]bool
 	modLemma  map[string]bool // axioms that are lemmas about emod/ediv (dropped when those are defined as mod/div)
 }
 
 func newSMT() *SMT {
 	s := &SMT{sortSeen: map[string]bool{}, declSeen: map[string]bool{}, axSeen: map[string]bool{}, structs: map[string]*structSort{},
 		structOf: map[types.Type]*structSort{}, strLits: map[string]string{}, typeTags: map[string]int{},
-		initHeap: map[string]string{}, heapSort: map[string]string{}, modLemma: map[string]bool{}}
+		initHeap: map[string]string{}, heapSort: map[string]string{}, modLemma: map[string]bool{}, refNoted: map[string]bool{}}
 	s.sortDecls = append(s.sortDecls,
 		"(declare-sort Str 0)",
 		"(declare-sort Opaque 0)",
